@@ -4,7 +4,9 @@ import fcntl, hashlib, json, os, re, shutil, subprocess, sys, time, importlib
 
 VERIF = os.path.dirname(os.path.dirname(os.path.abspath(__file__)))
 REPO = os.environ.get("VERIF_REPO", "/repo")
-LEAN = os.path.join(VERIF, "lean")
+# VERIF_LEAN: a private copy of the Lean project (developer tools that test changed trees use one so
+# that regenerated files never disturb checks running against /repo)
+LEAN = os.environ.get("VERIF_LEAN", os.path.join(VERIF, "lean"))
 BUILD = os.environ.get("VERIF_BUILD", os.path.join(VERIF, "build"))
 EVID = os.path.join(VERIF, "evidence")
 REPLAY = os.path.join(BUILD, "replay")
@@ -24,7 +26,7 @@ def log(*a):
 class Lock:
     def __init__(self, name):
         # the lake lock is global (one shared lean/.lake); build locks are per build directory
-        base = os.path.join(VERIF, ".locks") if name == "lake" else BUILD
+        base = (os.path.join(VERIF, ".locks") if "VERIF_LEAN" not in os.environ else BUILD) if name == "lake" else BUILD
         os.makedirs(base, exist_ok=True)
         self.path = os.path.join(base, name + ".lock")
 
